@@ -8,6 +8,73 @@ import IGVerif.Proofs.ComboShared
 namespace IGVerif.Combo
 open IGVerif
 
+/-- `detectCombinations` on shared text around a combination, written directly inside the
+    component's parentheses; any fuel -/
+theorem detect_shared_stripped (sl sr : Option Str) (o : Op3) (a b : Expr) (ha : Bin a) (hb : Bin b)
+    (hsl : ∀ t, sl = some t → SWord t) (hsr : ∀ t, sr = some t → SWord t) (fuel : Nat) :
+    ∃ rest, detect '(' ')' fuel (optPre sl ++ renderE (.comb o a b) ++ optPost sr)
+      = .ok ([bnd o a b (optPre sl).length] :: rest) (optPre sl ++ renderE (.comb o a b) ++ optPost sr) := by
+  obtain ⟨I, hI⟩ : ∃ I, I = optPre sl ++ renderE (.comb o a b) ++ optPost sr := ⟨_, rfl⟩
+  rw [← hI]
+  have hbin : Bin (.comb o a b) := .comb o a b ha hb
+  have hpc : Validate.parCount '(' ')' I 0 = 0 := by
+    rw [hI, List.append_assoc, parCount_nopar _ _ _ (plain_optPre sl hsl).noPar, parCount_render _ hbin]
+    have := parCount_nopar (optPost sr) [] 0 (plain_optPost sr hsr).noPar
+    simpa [Validate.parCount] using this
+  obtain ⟨lm', h2, hE⟩ := scan_render _ hbin (optPost sr) (0 + (optPre sl).length) {} (by simp)
+  have h3 : scan '(' ')' I 0 {} = .done lm' := by
+    rw [hI, List.append_assoc, scan_plain _ _ _ _ (plain_optPre sl hsl), h2]
+    have := scan_plain (optPost sr) [] (0 + (optPre sl).length + (renderE (.comb o a b)).length)
+      { ({} : St) with lm := lm' } (plain_optPost sr hsr)
+    simpa [scan] using this
+  have hl0 : lm'[0]? = some [bnd o a b (optPre sl).length] := by
+    have := hE.at_
+    simp only [List.length_nil, List.getElem?_nil, Option.getD_none, List.nil_append, Nat.zero_add, ents_comb] at this
+    exact some_of_getD_append lm' 0 [] _ (by simpa using this)
+  obtain ⟨es0, rest, hlm⟩ : ∃ es0 rest, lm' = es0 :: rest := by
+    cases lm' with
+    | nil => simp at hl0
+    | cons x xs => exact ⟨x, xs, rfl⟩
+  subst hlm
+  simp only [List.getElem?_cons_zero, Option.some.injEq] at hl0
+  subst hl0
+  refine ⟨rest, ?_⟩
+  rw [detect]
+  simp only [hpc, h3]
+  simp
+
+theorem afterDetect_shared_stripped (sl sr : Option Str) (o : Op3) (a b : Expr) (ha : BinW a) (hb : BinW b)
+    (hsl : ∀ t, sl = some t → SWord t) (hsr : ∀ t, sr = some t → SWord t) (nested : Bool) (f : Nat)
+    (hf : depth (.comb o a b) ≤ f + 1) (rest : LM) :
+    afterDetect '(' ')' (parse false f) nested
+        (.ok ([bnd o a b (optPre sl).length] :: rest) (optPre sl ++ renderE (.comb o a b) ++ optPost sr))
+      = .res ⟨.comb o.str (optList sl) (optList sr) (treeOf a) (treeOf b),
+              optPre sl ++ renderE (.comb o a b) ++ optPost sr, cNoError⟩ := by
+  simp only [depth] at hf
+  have hbr : (o.br).length = o.str.length + 2 := by simp [Op3.br]
+  have hsh : extractShared (optPre sl ++ renderE (.comb o a b) ++ optPost sr) ([bnd o a b (optPre sl).length] :: rest) 0 0
+      [bnd o a b (optPre sl).length] (bnd o a b (optPre sl).length) = (optList sl, optList sr) := by
+    have hI1 : optPre sl ++ renderE (.comb o a b) ++ optPost sr
+        = (optPre sl ++ ['(']) ++ (renderE a ++ ' ' :: o.br ++ ' ' :: renderE b ++ ')' :: optPost sr) := by simp [renderE]
+    have hI2 : optPre sl ++ renderE (.comb o a b) ++ optPost sr
+        = (optPre sl ++ '(' :: renderE a ++ ' ' :: o.br ++ ' ' :: renderE b) ++ (')' :: optPost sr) := by simp [renderE]
+    have htake : (optPre sl ++ renderE (.comb o a b) ++ optPost sr).take ((optPre sl).length + 1) = optPre sl ++ ['('] := by
+      rw [hI1, List.take_left' (by simp)]
+    have hdrop : (optPre sl ++ renderE (.comb o a b) ++ optPost sr).drop
+        ((optPre sl).length + (renderE a).length + (renderE b).length + o.str.length + 5) = ')' :: optPost sr := by
+      rw [hI2, List.drop_left' (by simp [hbr]; omega)]
+    simp only [extractShared, enclosing, bnd, htake, hdrop, if_true, Nat.zero_add,
+      List.getElem?_cons_succ, List.getElem?_nil, cleanShared_pre sl hsl, cleanShared_post sr hsr]
+  have := procEntries_comb o a b ha hb f (optPre sl) (optPost sr) nested ([bnd o a b (optPre sl).length] :: rest) 0
+    (optList sl) (optList sr)
+    (fun o' l' r' h a' b' => parse_render_aux a ha o' l' r' h f a' b' true (by omega))
+    (fun o' l' r' h a' b' => parse_render_aux b hb o' l' r' h f a' b' true (by omega)) hsh
+  rw [afterDetect]
+  simp only [List.isEmpty_cons, Bool.false_eq_true, if_false, firstComplete, List.any_cons, List.any_nil, Bool.or_false,
+    bnd, if_true]
+  simp only [bnd] at this
+  exact this
+
 /-- shared text around a combination, written directly inside the component's parentheses -/
 theorem parse_shared_stripped (sl sr : Option Str) (o : Op3) (a b : Expr) (ha : BinW a) (hb : BinW b)
     (hsl : ∀ t, sl = some t → SWord t) (hsr : ∀ t, sr = some t → SWord t) (nested : Bool) (fuel : Nat)
@@ -18,68 +85,15 @@ theorem parse_shared_stripped (sl sr : Option Str) (o : Op3) (a b : Expr) (ha : 
   cases fuel with
   | zero => simp [depth] at hf
   | succ f =>
-    simp only [depth] at hf
-    obtain ⟨I, hI⟩ : ∃ I, I = optPre sl ++ renderE (.comb o a b) ++ optPost sr := ⟨_, rfl⟩
-    rw [← hI]
-    have hbin : Bin (.comb o a b) := .comb o a b ha.bin hb.bin
-    -- the early exit does not apply
-    have hT : I = (optPre sl ++ '(' :: renderE a ++ [' ']) ++ o.br ++ (' ' :: renderE b ++ ')' :: optPost sr) := by
-      rw [hI]; simp [renderE]
+    have hT : optPre sl ++ renderE (.comb o a b) ++ optPost sr
+        = (optPre sl ++ '(' :: renderE a ++ [' ']) ++ o.br ++ (' ' :: renderE b ++ ')' :: optPost sr) := by
+      simp [renderE]
     have hu := parse_unfold o (optPre sl ++ '(' :: renderE a ++ [' ']) (' ' :: renderE b ++ ')' :: optPost sr) f nested
     rw [← hT] at hu
-    rw [hu]
-    -- the scan
-    have hpc : Validate.parCount '(' ')' I 0 = 0 := by
-      rw [hI, List.append_assoc, parCount_nopar _ _ _ (plain_optPre sl hsl).noPar, parCount_render _ hbin]
-      have := parCount_nopar (optPost sr) [] 0 (plain_optPost sr hsr).noPar
-      simpa [Validate.parCount] using this
-    obtain ⟨lm', h2, hE⟩ := scan_render _ hbin (optPost sr) (0 + (optPre sl).length) {} (by simp)
-    have h3 : scan '(' ')' I 0 {} = .done lm' := by
-      rw [hI, List.append_assoc, scan_plain _ _ _ _ (plain_optPre sl hsl), h2]
-      have := scan_plain (optPost sr) [] (0 + (optPre sl).length + (renderE (.comb o a b)).length)
-        { ({} : St) with lm := lm' } (plain_optPost sr hsr)
-      simpa [scan] using this
-    have hd : detect '(' ')' (I.length + 1) I = .ok lm' I := by
-      rw [detect]
-      simp only [hpc, h3]
-      simp
-    have hl0 : lm'[0]? = some [bnd o a b (optPre sl).length] := by
-      have := hE.at_
-      simp only [List.length_nil, List.getElem?_nil, Option.getD_none, List.nil_append, Nat.zero_add, ents_comb] at this
-      exact some_of_getD_append lm' 0 [] _ (by simpa using this)
-    obtain ⟨es0, rest, hlm⟩ : ∃ es0 rest, lm' = es0 :: rest := by
-      cases lm' with
-      | nil => simp at hl0
-      | cons x xs => exact ⟨x, xs, rfl⟩
-    subst hlm
-    simp only [List.getElem?_cons_zero, Option.some.injEq] at hl0
-    subst hl0
-    rw [hd]
-    -- shared text: what precedes and what follows the combination
-    have hbr : (o.br).length = o.str.length + 2 := by simp [Op3.br]
-    have hsh : extractShared (optPre sl ++ renderE (.comb o a b) ++ optPost sr) ([bnd o a b (optPre sl).length] :: rest) 0 0
-        [bnd o a b (optPre sl).length] (bnd o a b (optPre sl).length) = (optList sl, optList sr) := by
-      have hI1 : optPre sl ++ renderE (.comb o a b) ++ optPost sr
-          = (optPre sl ++ ['(']) ++ (renderE a ++ ' ' :: o.br ++ ' ' :: renderE b ++ ')' :: optPost sr) := by simp [renderE]
-      have hI2 : optPre sl ++ renderE (.comb o a b) ++ optPost sr
-          = (optPre sl ++ '(' :: renderE a ++ ' ' :: o.br ++ ' ' :: renderE b) ++ (')' :: optPost sr) := by simp [renderE]
-      have htake : (optPre sl ++ renderE (.comb o a b) ++ optPost sr).take ((optPre sl).length + 1) = optPre sl ++ ['('] := by
-        rw [hI1, List.take_left' (by simp)]
-      have hdrop : (optPre sl ++ renderE (.comb o a b) ++ optPost sr).drop
-          ((optPre sl).length + (renderE a).length + (renderE b).length + o.str.length + 5) = ')' :: optPost sr := by
-        rw [hI2, List.drop_left' (by simp [hbr]; omega)]
-      simp only [extractShared, enclosing, bnd, htake, hdrop, if_true, Nat.zero_add,
-        List.getElem?_cons_succ, List.getElem?_nil, cleanShared_pre sl hsl, cleanShared_post sr hsr]
-    have := procEntries_comb o a b ha hb f (optPre sl) (optPost sr) nested ([bnd o a b (optPre sl).length] :: rest) 0
-      (optList sl) (optList sr)
-      (fun o' l' r' h a' b' => parse_render_aux a ha o' l' r' h f a' b' true (by omega))
-      (fun o' l' r' h a' b' => parse_render_aux b hb o' l' r' h f a' b' true (by omega)) hsh
-    rw [← hI] at this
-    rw [afterDetect]
-    simp only [List.isEmpty_cons, Bool.false_eq_true, if_false, firstComplete, List.any_cons, List.any_nil, Bool.or_false,
-      bnd, if_true]
-    simp only [bnd] at this
-    exact this
+    obtain ⟨rest, hd⟩ := detect_shared_stripped sl sr o a b ha.bin hb.bin hsl hsr
+      ((optPre sl ++ renderE (.comb o a b) ++ optPost sr).length + 1)
+    rw [hu, hd]
+    exact afterDetect_shared_stripped sl sr o a b ha hb hsl hsr nested f hf rest
 
 /-! ### a combination without its outer parentheses -/
 
